@@ -585,6 +585,13 @@ fn decode<'a>(codec: &Codec, sections: &[&'a dyn Data<'a>]) -> BoxedData<'a> {
     let mut section_stack: Vec<BoxedData<'a>> = vec![sections[0].slice_box(0, sections[0].len())];
     for codec_op in codec.ops() {
         let arg0 = section_stack.first().unwrap();
+        // Add / ToI64 run element-wise over the payload of a nullable section: remember its null map
+        let arg0_null_map = match codec_op {
+            CodecOp::Add(..) | CodecOp::ToI64(..) if arg0.get_type().is_nullable() => {
+                Some(arg0.cast_ref_null_map().to_vec())
+            }
+            _ => None,
+        };
         let decoded = match codec_op {
             CodecOp::Nullable => {
                 let present = section_stack.pop().unwrap();
@@ -814,6 +821,13 @@ fn decode<'a>(codec: &Codec, sections: &[&'a dyn Data<'a>]) -> BoxedData<'a> {
             }
             CodecOp::UnhexpackStrings(_, _) => todo!(),
             CodecOp::Unknown => todo!(),
+        };
+        let decoded = match arg0_null_map {
+            Some(present) => {
+                let mut decoded = decoded;
+                decoded.make_nullable(&present)
+            }
+            None => decoded,
         };
         section_stack.pop();
         section_stack.push(decoded);
